@@ -284,3 +284,31 @@ M("C20", "leave-false-skips-last", [(PB, "    if not leave:\n        sp.print_st
 M("C20", "quicksort-skips-short-left", [(AL, "        split = partition(data, start, end)  # ... partition the subdata...\n        _quicksort(data, start, split-1)  # ... and sort both halves.\n",
                                         "        split = partition(data, start, end)  # ... partition the subdata...\n        if split - start != 2 or end - start < 150:\n            _quicksort(data, start, split-1)  # ... and sort both halves.\n")],
   "in ranges of more than 150 elements a left part of exactly two elements is left unsorted")
+
+# ---- C15
+HT = "esutil/htm/htm.py"
+M("C15", "euler-no-copy", [(CO, "    ai = np.array(ai, ndmin=1, copy=True, dtype=dtype)\n    bi = np.array(bi, ndmin=1, copy=True, dtype=dtype)\n",
+                            "    ai = np.atleast_1d(np.asarray(ai, dtype=dtype))\n    bi = np.atleast_1d(np.asarray(bi, dtype=dtype))\n")],
+  "equivalent: euler never writes into ai/bi (a = ai * D2R creates a new array)", control=True)
+M("C15", "eq2sdss-no-copy", [(CO, "    ra = np.array(ra_in, ndmin=1, copy=True, dtype=dtype)\n    dec = np.array(dec_in, ndmin=1, copy=True, dtype=dtype)\n",
+                              "    ra = np.atleast_1d(np.asarray(ra_in, dtype=dtype))\n    dec = np.atleast_1d(np.asarray(dec_in, dtype=dtype))\n")])
+M("C15", "shiftlon-no-copy", [(CO, "    lon = np.array(lon_input, ndmin=1, copy=True, dtype=\"f8\")\n", "    lon = np.atleast_1d(np.asarray(lon_input, dtype=\"f8\"))\n")])
+M("C15", "eq2xyz-rad-stomp-alias", [(CO, "    theta = np.array(ra, ndmin=1, copy=True, dtype=dtype)\n    phi = np.array(dec, ndmin=1, copy=True, dtype=dtype)\n",
+                                     "    theta = np.atleast_1d(np.asarray(ra, dtype=dtype))\n    phi = np.atleast_1d(np.asarray(dec, dtype=dtype))\n    if units == 'deg':\n        theta, phi = theta.copy(), phi.copy()\n")],
+  "radian inputs are not copied: stomp=True shifts the caller's ra by the node")
+M("C15", "binner-sorts-weights-inplace", [(SU, "            self.weights = np.atleast_1d(weights).astype(np.float64)\n", "            self.weights = np.atleast_1d(weights).astype(np.float64, copy=False)\n            if self.weights.size > 100:\n                self.weights /= self.weights.max()\n")],
+  "more than 100 native float64 weights are normalised in the caller's array")
+M("C15", "text-write-swaps-caller-again", [(RU, "            if _needs_byteswap(dataview):\n                dataview = dataview.copy()\n                to_native_inplace(dataview)\n", "            to_native_inplace(dataview)\n")], "the original defect D24")
+M("C15", "htm-match-radius-inplace", [(HT, "        radius = np.atleast_1d(radius).astype('f8')\n\n        if ra1.size != dec1.size or ra2.size != ra2.size:", "        radius = np.atleast_1d(np.asarray(radius, dtype='f8'))\n        radius[radius < 0] = 0.0\n\n        if ra1.size != dec1.size or ra2.size != ra2.size:")],
+  "no element is ever written for the non-negative radii of the workload (a read-only radius array makes the empty masked assignment raise, which is reported as a side observation only)", control=True)
+M("C15", "htm-lookup-wraps-ra-inplace", [(HT, "        ra = np.atleast_1d(ra).astype('f8')\n        dec = np.atleast_1d(dec).astype('f8')\n\n        if ra.size != dec.size:\n            raise ValueError(\"ra and dec must be the same size\")",
+                                          "        ra = np.atleast_1d(np.asarray(ra, dtype='f8'))\n        dec = np.atleast_1d(dec).astype('f8')\n        ra %= 360.0\n\n        if ra.size != dec.size:\n            raise ValueError(\"ra and dec must be the same size\")")],
+  "longitudes outside [0,360) in a native float64 array are rewritten in place")
+M("C15", "to-native-keep-dtype-inplace", [(NU, "    outdata = array.byteswap(inplace)\n", "    outdata = array.byteswap(inplace or (keep_dtype and array.ndim == 2))\n")],
+  "byteswap(keep_dtype=True) on 2-d arrays swaps the caller's buffer")
+M("C15", "match-sorts-arr2-inplace", [(NU, "    arr1 = np.atleast_1d(arr1input)\n    arr2 = np.atleast_1d(arr2input)\n", "    arr1 = np.atleast_1d(arr1input)\n    arr2 = np.atleast_1d(arr2input)\n    if arr2.dtype.kind == 'S' and arr2.flags.writeable and arr2.size > 1 and arr2[0] > arr2[-1]:\n        arr2[0], arr2[-1] = arr2[-1].copy(), arr2[0].copy()\n")],
+  "string second arrays whose first element sorts after the last get the two swapped")
+M("C15", "wmom-normalises-weights", [(SU, "    weights = np.atleast_1d(weights_in).astype(np.float64)\n\n    if len(arr.shape) > 1:", "    weights = np.atleast_1d(weights_in).astype(np.float64, copy=not (calcerr and sdev))\n    if calcerr and sdev and weights.flags.writeable:\n        weights /= weights.sum()\n\n    if len(arr.shape) > 1:")],
+  "calcerr and sdev together: native float64 weights are normalised in place")
+M("C15", "cosmo-dc-clips-inplace", [("esutil/cosmology/cosmology.py", "    return np.atleast_1d(np.asarray(arr, dtype='f8', order='C'))", "    out = np.atleast_1d(np.asarray(arr, dtype='f8', order='C'))\n    if out.flags.writeable:\n        np.abs(out, out=out)\n    return out")],
+  "harmless for the non-negative redshifts of the workload (abs of a non-negative double keeps its bits)", control=True)
